@@ -64,7 +64,7 @@ def _range_ok(h, s, bw, hi=4, sorted_input=False, lo=0.5):
         h.assume(lo <= r < hi, f"range/h in [{lo}, {hi})")
 
 
-@unit("C12", quick=[dict(n=3, nx=1, lo=0.5, hi=4)], thorough=[dict(n=3, nx=2, lo=0.5, hi=4)], max_paths=40000, cost=9,
+@unit("C12", quick=[dict(n=3, nx=1, lo=0.5, hi=4), dict(n=3, nx=1, lo=0.13, hi=0.5)], thorough=[dict(n=3, nx=2, lo=0.5, hi=4)], max_paths=40000, cost=9,
       axioms_in_trunc=True, timeout_ms=40000, thorough_wall_s=3000)
 def density_is_truncated_kernel_sum_with_margin(h, n, nx, lo, hi):
     s, bw = _sample(h, n)
@@ -232,3 +232,69 @@ def every_evaluation_point_is_grouped_under_its_own_region(h, layers, nv):
             if r < nreg - 1:
                 h.le(f"point {int(i)} <= right edge of its region", vals[int(i)], right)
     h.eq("evaluation array unchanged", arr, np.array(vals, dtype=dt))
+
+
+@unit("C12", quick=[dict(n=3), dict(n=4)], thorough=[dict(n=5)], max_paths=2000, cost=3, timeout_ms=40000)
+def rule_of_thumb_bandwidth_is_shift_and_scale_covariant(h, n):
+    """bandwidth-selection mode 'rule of thumb' (no bandwidth given): the selected bandwidth of the shifted / rescaled
+    sample c*s + b is c times that of s (so the estimate built on it shifts and rescales with the data, by the covariance
+    unit for a given bandwidth), and it is the documented 1.06 * std / n^(1/5)"""
+    import inference.pdf.kde as kd
+    h.patch(kd, zeros=ozeros, erf=funcs.erf)
+    h.covers(kd.GaussianKDE.simple_bandwidth_estimator)
+    s = h.real("s", n)
+    c = h.real("c", pos=True)
+    b = h.real("b")
+    dt = object if h.sym else float
+
+    def selected(sample):
+        K = object.__new__(kd.GaussianKDE)      # the selection rule alone: the rest of the constructor is other units' subject
+        K.sample = np.array(sample, dtype=dt)
+        return K.simple_bandwidth_estimator()
+    h1 = selected(s)
+    h2 = selected(c * s + b)
+    mean = sum(s) / n
+    var = sum((v - mean) ** 2 for v in s) / n
+    h.eq("selected bandwidth == 1.06 * std / n^0.2", h1, 1.06 * h.sqrt(var) / n ** 0.2)
+    h.eq("bandwidth of c*s + b == c * bandwidth of s", h2, c * h1)
+    h.ge("bandwidth >= 0", h1, 0.0)
+
+
+class _Stop(Exception):
+    pass
+
+
+@unit("C12", quick=[dict(n=3)], thorough=[dict(n=4)], max_paths=2000, cost=3, timeout_ms=40000)
+def cross_validated_bandwidth_search_scales_with_the_data(h, n):
+    """bandwidth-selection mode 'cross-validation': the real constructor is run with cross_validation=True on s and on
+    c*s + b up to the end of the first search grid (the cross-validation score is replaced by a recorder that stops the run
+    after the fifth candidate: a cut, the score itself is not executed).  The leave-one-out score of (c*s + b, c*w) differs
+    from that of (s, w) by a constant, so the selected bandwidth rescales with the data iff the candidate widths do: every
+    candidate width for c*s + b must be c times the corresponding candidate for s"""
+    import inference.pdf.kde as kd
+    h.patch(kd, zeros=ozeros, erf=funcs.erf)
+    h.covers(kd.GaussianKDE.__init__, kd.GaussianKDE.cross_validation_bandwidth_estimator, kd.GaussianKDE.simple_bandwidth_estimator)
+    s = h.real("s", n)
+    c = h.real("c", pos=True)
+    b = h.real("b")
+    for a, bb in zip(s[:-1], s[1:]):
+        h.assume(a < bb, "distinct sample values in ascending order (order invariance is a separate unit)")
+    dt = object if h.sym else float
+    seen = []
+
+    def rec(self, samples, width, c=0.99):
+        seen.append(width)
+        if len(seen) % 5 == 0:
+            raise _Stop()
+        return 0.0
+    h.patch(kd.GaussianKDE, both=True, cross_validation_logprob=rec)
+    for sample in (np.array(s, dtype=dt), np.array(c * s + b, dtype=dt)):
+        try:
+            kd.GaussianKDE(sample, cross_validation=True)
+        except _Stop:
+            pass
+    h.same("five candidate widths per search grid", len(seen), 10)
+    if len(seen) == 10:
+        for m in range(5):
+            h.eq(f"candidate {m}: width for c*s + b == c * width for s", seen[5 + m], c * seen[m])
+            h.ge(f"candidate {m}: positive", seen[m], 0.0, strict=True)
